@@ -41,7 +41,7 @@ def _do(interp, st, ctl, is_async=False):
     if st["op"] == "send":
         return interp.send(st["ev"])
     if st["op"] == "batch":
-        return interp.send_events([st["ev"], st["ev2"]])
+        return interp.send_events(list(st["evs"]))
     return None
 
 
@@ -136,7 +136,7 @@ async def _check_edge_async(b, steps) -> List[str]:
         elif st["op"] == "send":
             await interp.send(st["ev"])
         elif st["op"] == "batch":
-            await interp.send_events([st["ev"], st["ev2"]])
+            await interp.send_events(list(st["evs"]))
         await rp._quiesce(interp)
 
     try:
